@@ -44,13 +44,19 @@ KINDS = ("instant", "sleep", "barrier", "barrier_all", "mixed")
 # scenarios
 # ---------------------------------------------------------------------------------------------
 
-def mk_case(n, d, pace, jobs):
-    return "%d;%d;%d;%s" % (n, d, pace, ",".join(jobs))
+def mk_case(n, d, pace, jobs, unwind=False):
+    # ;u = the pool is dropped by the unwinding of its (panicking) owner thread instead of an ordinary drop
+    return "%d;%d;%d;%s%s" % (n, d, pace, ",".join(jobs), ";u" if unwind else "")
 
 
 def parse_case(case):
     n, d, pace, jobs = case.split(";", 3)
+    jobs = jobs.split(";")[0]
     return int(n), int(d), int(pace), [j for j in jobs.split(",") if j]
+
+
+def is_unwind(case):
+    return case.endswith(";u")
 
 
 def gen_jobs(rng, n, total, d, kind):
@@ -99,9 +105,10 @@ def gen_cases(ctx):
     rng = random.Random(ctx.seed)
     probe, cases, hist = [], [], collections.Counter()
 
-    def add(lst, n, total, d, kind, pace):
+    def add(lst, n, total, d, kind, pace, unwind=False):
         jobs = gen_jobs(rng, n, total, d, kind)
-        lst.append(mk_case(n, d, pace, jobs))
+        lst.append(mk_case(n, d, pace, jobs, unwind))
+        hist["dropped-by=" + ("unwinding-owner" if unwind else "drop")] += 1
         hist["kind=" + kind] += 1
         hist["n=%d" % n] += 1
         hist["drop=" + ("none-submitted" if d == 0 else "after-all" if d == total else "middle")] += 1
@@ -113,6 +120,7 @@ def gen_cases(ctx):
     for n in range(1, 9):
         add(probe, n, 2 * n + 2, 2 * n + 2, "barrier_all", 0)
         add(probe, n, 3 * n, n + 1, "sleep", 0)
+        add(probe, n, 3 * n + 2, 3 * n + 2, "sleep", 0, unwind=True)
     # systematic part
     reps = 1 if ctx.quick else 6
     for rep in range(reps):
@@ -124,6 +132,7 @@ def gen_cases(ctx):
                 add(cases, n, 2 * n + 1, 2 * n + 1, "sleep", pace)
                 add(cases, n, 3 * n + 2, rng.randint(1, 3 * n + 1), "sleep", pace)
                 add(cases, n, 3 * n + 2, rng.randint(1, 3 * n + 2), "mixed", pace)
+                add(cases, n, 3 * n + 2, rng.randint(n + 1, 3 * n + 2), "sleep", pace, unwind=True)
             add(cases, n, 200, 200, "instant", rng.randint(1, 1 << 30))
             add(cases, n, 200, rng.randint(0, 200), "sleep", rng.randint(0, 1) * rng.randint(1, 1 << 30))
             add(cases, n, 200, rng.randint(100, 200), "mixed", rng.randint(1, 1 << 30))
@@ -137,7 +146,7 @@ def gen_cases(ctx):
         d = total if r < 0.4 else 0 if r < 0.45 else rng.randint(0, total)
         kind = rng.choice(KINDS)
         pace = 0 if rng.random() < 0.3 else rng.randint(1, 1 << 30)
-        add(cases, n, total, d, kind, pace)
+        add(cases, n, total, d, kind, pace, unwind=rng.random() < 0.2)
     return probe, cases, hist
 
 
@@ -254,8 +263,8 @@ def nontrivial(case):
 
 def describe(case):
     n, d, pace, jobs = parse_case(case)
-    return "pool of %d workers; %d jobs of which the first %d are submitted, then the pool is dropped; pacing seed %d; jobs: %s" % (
-        n, len(jobs), d, pace, ",".join(jobs)[:400])
+    return "pool of %d workers; %d jobs of which the first %d are submitted, then the pool is dropped%s; pacing seed %d; jobs: %s" % (
+        n, len(jobs), d, " by the unwinding of its panicking owner thread" if is_unwind(case) else "", pace, ",".join(jobs)[:400])
 
 
 # ---------------------------------------------------------------------------------------------
